@@ -254,3 +254,53 @@ Theorem C05_in_include_verdict_from_source :
      (run_rule orc U FE ST fn_Include vn obj field v = Some [] <-> in_like vn obj field v = [])).
 Proof. exact in_rules_write_iff_clause. Qed.
 Print Assumptions C05_in_include_verdict_from_source.
+
+(* Ints (valid/validfn.go), with its two loops: a string is split on the rule's separator (protecting quotes stripped, a
+   comma by default; the loop stops at the first part that is no number), the elements of a slice or array are rendered
+   by ToStr one after the other (a counted loop: every element is looked at, the echo "[a, b]" grows); an integer kind
+   passes, any other kind is a rule-writing error.  From its syntax tree regenerated on every run, for EVERY rule text,
+   names and value — both loops by induction — it writes ints_text, and nothing exactly when the model's rInts (the
+   function C05_ints judges) reports no clause. *)
+From PGV Require Import Extracted.SourceFnsInts Proofs.GoIntsProofs.
+Theorem C05_ints_from_source :
+  forall (orc : oracles) (U : val -> str) (FE : str -> str -> ftext -> str) (ST : str -> str) vn obj field v,
+  run_rule orc U FE ST fn_Ints vn obj field v = Some (ints_text FE vn obj field v).
+Proof. exact ints_rule_from_source. Qed.
+Print Assumptions C05_ints_from_source.
+Theorem C05_ints_verdict_from_source :
+  forall (orc : oracles) (U : val -> str) (FE : str -> str -> ftext -> str) (ST : str -> str),
+  (forall o f t, FE o f t <> []) -> forall vn obj field v,
+  run_rule orc U FE ST fn_Ints vn obj field v = Some [] <-> rInts vn obj field v = [].
+Proof. exact ints_rule_writes_iff_clause. Qed.
+Print Assumptions C05_ints_verdict_from_source.
+
+(* Unique (valid/validfn.go): the parts of a string split on ',', resp. the ToStr renderings of the elements of a slice or
+   array — "numbers by their canonical decimal rendering" —, are put into a map[string]struct{} used as a set, and the
+   rule holds when the set has as many keys as there were parts.  From its syntax tree regenerated on every run, both
+   loops by induction, with the fact that such a set has length (distinct l) keys: it writes unique_text, and nothing
+   exactly when the model's rUnique (the function C05_unique judges) reports no clause. *)
+From PGV Require Import Proofs.GoUniqueProofs.
+Theorem C05_unique_from_source :
+  forall (orc : oracles) (U : val -> str) (FE : str -> str -> ftext -> str) (ST : str -> str) vn obj field v,
+  run_rule orc U FE ST fn_Unique vn obj field v = Some (unique_text FE vn obj field v).
+Proof. exact unique_rule_from_source. Qed.
+Print Assumptions C05_unique_from_source.
+Theorem C05_unique_verdict_from_source :
+  forall (orc : oracles) (U : val -> str) (FE : str -> str -> ftext -> str) (ST : str -> str),
+  (forall o f t, FE o f t <> []) -> forall vn obj field v,
+  run_rule orc U FE ST fn_Unique vn obj field v = Some [] <-> rUnique vn obj field v = [].
+Proof. exact unique_rule_writes_iff_clause. Qed.
+Print Assumptions C05_unique_verdict_from_source.
+
+(* Datetime (valid/validfn.go), "with default or custom separators": up to three separators from the comma list of the
+   rule's value (protecting quotes stripped) replace "-", " ", ":" in order, a fourth and later ones are ignored (the loop
+   with its break, by induction); the layout is GetTimeFmt(DateTimeFmt, separators...) — datetime_splits and mask 63 of
+   C05_datetime_wiring —, time.Parse decides (oracle), the default wording spells an example with the separators in use
+   (fmt.Sprintf with %s verbs).  From its syntax tree regenerated on every run. *)
+From PGV Require Import Proofs.GoDatetimeProofs.
+Theorem C05_datetime_from_source :
+  forall (orc : oracles) (U : val -> str) (FE : str -> str -> ftext -> str) (ST : str -> str) vn obj field v,
+  run_rule orc U FE ST fn_Datetime vn obj field v = Some (datetime_text orc vn obj field v) /\
+  (run_rule orc U FE ST fn_Datetime vn obj field v = Some [] <-> rDatetime orc vn obj field v = []).
+Proof. exact datetime_rule_from_source. Qed.
+Print Assumptions C05_datetime_from_source.
